@@ -53,7 +53,8 @@ func buildPipeCase(sink string, fates []string, readFail int) pipeCase {
 		case "ok":
 			b += "  - c\n    - d\n"
 		case "genErr":
-			b += "  - c\n  -\n"
+			// the three ways a block fails in the generator: empty item text, a level jump, no bullet
+			b += []string{"  - c\n  -\n", "  - c\n        - jump\n", "  - c\n  nobullet\n"}[k%3]
 		case "growErr":
 			b += "  - x/y\n"
 		case "sinkErr":
@@ -64,7 +65,11 @@ func buildPipeCase(sink string, fates []string, readFail int) pipeCase {
 			}
 		}
 		if sink == "verify" && f != "sinkErr" {
-			rq.PreDoc += strings.ReplaceAll(strings.ReplaceAll(b, "  -\n", ""), "  - x/y\n", "") // verify: everything but the failing roots exists
+			if f == "ok" {
+				rq.PreDoc += b // verify: everything but the failing roots exists
+			} else {
+				rq.PreDoc += "- " + name + "\n"
+			}
 		}
 		pc.Blocks = append(pc.Blocks, b)
 		pc.Names = append(pc.Names, name)
